@@ -112,6 +112,9 @@ type c16Case struct {
 	// other batch.
 	Cb  []int `json:"cb,omitempty"`
 	CbN int   `json:"cbn,omitempty"`
+	// NilRm (periodical): the harness's TaskContainer returns an untyped nil from RemoveAll when it
+	// holds nothing (a legal container; hasTasks' nil branch) instead of an empty []int.
+	NilRm bool `json:"nilrm,omitempty"`
 }
 
 // c16Marker: ids of the elements callbacks write into their own batch (never added as tasks)
@@ -373,6 +376,7 @@ func c16Goid() uint64 {
 type c16Container struct {
 	tasks []int
 	max   int
+	nilRm bool
 	exec  func(ids []int, raw []any)
 	dec   func(any) int
 }
@@ -385,6 +389,9 @@ func (c *c16Container) Execute(tasks any) { c.exec(tasks.([]int), nil) }
 func (c *c16Container) RemoveAll() any {
 	t := c.tasks
 	c.tasks = nil
+	if c.nilRm && len(t) == 0 {
+		return nil
+	}
 	return t
 }
 
@@ -511,7 +518,7 @@ func c16New(c c16Case, exec func(ids []int, raw []any), shared *c16SharedOpts) c
 		ce := executors.NewChunkExecutor(anyExec, opts...)
 		return c16Subject{add: func(id, size int) { _ = ce.Add(c.encode(id), size) }, flush: ce.Flush, wait: ce.Wait}
 	default:
-		pe := executors.NewPeriodicalExecutor(c.interval(), &c16Container{max: c.Max, exec: exec, dec: c.decode})
+		pe := executors.NewPeriodicalExecutor(c.interval(), &c16Container{max: c.Max, exec: exec, dec: c.decode, nilRm: c.NilRm})
 		return c16Subject{add: func(id, _ int) { pe.Add(c.encode(id)) }, flush: func() { pe.Flush() }, wait: pe.Wait}
 	}
 }
@@ -1160,6 +1167,9 @@ func c16Check(c c16Case, s *c16State, res *c16Result, par bool) {
 			cl["size-limit:127..4097"] = true
 		}
 	}
+	if c.NilRm && c.Kind == "periodical" {
+		cl["container-RemoveAll-returns-nil-when-empty"] = true
+	}
 	if c.Poly {
 		cl["poly-task-values"] = true
 		if c.NilAt > 0 && added[c.NilAt-1] != nil {
@@ -1398,6 +1408,7 @@ func c16GenKind(rt *rapid.T, c *c16Case) {
 		c.Max = rapid.IntRange(1, 40).Draw(rt, "limit")
 	default:
 		c.Max = rapid.IntRange(0, 4).Draw(rt, "max")
+		c.NilRm = rapid.Bool().Draw(rt, "nilrm")
 	}
 }
 
